@@ -222,6 +222,13 @@ def main():
                 r = fu.result()
                 r["_inst"] = inst
                 r["_mutant"] = mu
+                if mu:
+                    r.pop("raw_results", None)      # only the verdict of a mutant run is used
+                else:
+                    # keep what evidence, samples and baselines need; drop source locations' bulk
+                    r["raw_results"] = [{"property": x.get("property", ""), "description": x.get("description", ""), "status": x.get("status", ""),
+                                         "sourceLocation": {"file": x.get("sourceLocation", {}).get("file", ""), "line": x.get("sourceLocation", {}).get("line", "")}}
+                                        for x in r.get("raw_results", [])]
                 results.append(r)
         # tool hiccups under load (a killed goto-instrument, a missing b.gb) are retried once, alone
         for k, r in enumerate(list(results)):
